@@ -4159,9 +4159,7 @@ class AsBoolean(WrapsColumnExpression[bool], UnaryExpression[bool]):
     def self_group(
         self, against: Optional[OperatorType] = None
     ) -> Union[Self, Grouping[bool]]:
-        if against is not None and operators.is_precedent(
-            self.operator, against
-        ):
+        if operators.is_precedent(self.operator, against):
             return Grouping(self)
         return self
 
